@@ -73,7 +73,7 @@ def build(name, units, main_src, extra_flags=(), link_flags=()):
 def prune(name, keep):
     """keep disk use bounded: at most 3 cached builds per binary name"""
     ds = sorted(glob.glob(os.path.join(CACHE, "build", name + "-*")), key=os.path.getmtime)
-    for d in ds[:-3]:
+    for d in ds[:-2]:
         if d != keep:
             shutil.rmtree(d, ignore_errors=True)
 
